@@ -395,7 +395,10 @@ def check_path_api(ctx, paths, kind, fortran, via_views, retrace=None):
         ray.ray_tracing_for_paths(list(paths), convert_to_fortran_order=fortran)
     out = []
     for k, p_ in enumerate(paths):
-        fp = ray.FermatPath.from_path(p_)
+        # the problem as the Path states it *now*: its point sets and, for every leg, the velocity of the leg's mode read from the
+        # documented attributes of the leg's material (not through any helper of the library)
+        vels = [float(m_.longitudinal_vel if md_ is arim.Mode.L else m_.transverse_vel) for m_, md_ in zip(p_.materials, p_.modes)]
+        fp = ray.FermatPath(tuple(x for q_, itf in enumerate(p_.interfaces) for x in ((itf.points,) if q_ == 0 else (vels[q_ - 1], itf.points))))
         solo = ray.FermatSolver((fp,)).solve()[fp]
         r = p_.rays
         if r is None:
@@ -575,7 +578,13 @@ def run(ctx):
         # the same Path objects again after the problem changed in place
         import arim as _arim
         how = ["points moved in place", "materials re-assigned", "modes re-assigned", "nothing (other array order)"][k % 4]
-        if k % 4 == 0:
+        if k % 8 == 5:
+            how = "velocities re-assigned on the same Material objects"
+            for m_ in {id(m): m for p_ in paths for m in p_.materials}.values():
+                m_.longitudinal_vel = float(m_.longitudinal_vel) * 1.21
+                if m_.transverse_vel is not None:
+                    m_.transverse_vel = float(m_.transverse_vel) * 0.83
+        elif k % 4 == 0:
             q = paths[int(rng.integers(0, len(paths)))]
             tgt = q.interfaces[int(rng.integers(0, len(q.interfaces)))].points
             tgt.coords[..., 0] += float(rng.uniform(2e-3, 8e-3))
